@@ -600,6 +600,17 @@ def run_scripts(chk, area, c_exe, m_exe, scripts, oracle=None, batch=4000):
         chk.compare(area.NAME, part, c, m, oracle)
 
 
+def run_impl_only(chk, area, c_exe, scripts, oracle):
+    """scripts with operations the model does not have: executed on the real code only and judged
+    by the independent oracle"""
+    outs, _ = run_exe(c_exe, scripts, env=HARNESS_ENV)
+    for sc, c in zip(scripts, outs):
+        chk.count_script(area.NAME, sc, c)
+        w = oracle(chk.prop, sc, c)
+        if w and len(chk.oracle_failures) < 50:
+            chk.oracle_failures.append({"area": area.NAME, "script": sc, "what": w, "impl_output": c})
+
+
 def minimise(area, c_exe, m_exe, script, enabled=None):
     """shrink a script on which implementation and model differ: cut after the
     first differing line, then delta-debugging (drop chunks of halving size,
